@@ -148,6 +148,11 @@ func scenarios(tier string) (out []*Scenario) {
 	add(Scenario{Args: []string{"AliasB", "AliasA"}, Stub: true, SkipEnsure: true, Resets: true})
 	// witnesses of known findings (see /verif/KNOWN_FINDINGS.jsonl)
 	add(Scenario{Src: "kfcomparable", Args: []string{"Keyed"}, OnlyProps: []string{"C09"}})
+	add(Scenario{Src: "kfnames", Args: []string{"KFD7"}, OnlyProps: []string{"C12"}})
+	add(Scenario{Src: "kfnames", Args: []string{"KFD3"}, OnlyProps: []string{"C12"}})
+	add(Scenario{Src: "kfnames", Args: []string{"KFD11"}, OnlyProps: []string{"C13"}})
+	add(Scenario{Src: "kfcons", Args: []string{"KFD17"}, OnlyProps: []string{"C09"}})
+	add(Scenario{Src: "kfcons", Args: []string{"KFD18"}, OnlyProps: []string{"C09"}})
 	return out
 }
 
@@ -234,7 +239,7 @@ func PrepareStage2(repo, schemaDir string, scen []*Scenario, specs *SpecDB) (*St
 	os.MkdirAll(s2.ModDir, 0o755)
 	gomod, _ := os.ReadFile(filepath.Join(schemaDir, "go.mod"))
 	os.WriteFile(filepath.Join(s2.ModDir, "go.mod"), gomod, 0o644)
-	for _, d := range []string{"dep", "dep2"} {
+	for _, d := range []string{"dep", "dep2", "depkf"} {
 		if err := copyDir(filepath.Join(schemaDir, d), filepath.Join(s2.ModDir, d), nil); err != nil {
 			return nil, err
 		}
